@@ -241,7 +241,11 @@ class Algorithm16(Algorithm06):
     def validate(self, components: list[str], expected: str) -> bool:
         [account_code] = components
         check_digit = self.compute(components)
-        if self.remainder == 1 and account_code[8] == account_code[9]:
+        check_digit_index = self.positions.check_digit - 1
+        if (
+            self.remainder == 1
+            and account_code[check_digit_index - 1] == account_code[check_digit_index]
+        ):
             return True
         return check_digit == account_code[self.positions.check_digit - 1]
 
